@@ -2,6 +2,8 @@ package checks
 
 import (
 	"fmt"
+	"runtime/debug"
+	"strconv"
 	"strings"
 
 	"github.com/influxdata/influxql"
@@ -184,6 +186,47 @@ func checkC02(c *Ctx) (string, bool, []string) {
 					return map[string]interface{}{"sub": "lookalike", "input": t2, "prime": []string{t1}, "why": why}
 				}, local)
 				local["lookalike-name-pairs"]++
+			}
+		}
+		r.MergeCounts(local)
+	}
+	// What a print leaves behind must not show in the next one: a statement
+	// whose text is far beyond any buffer size worth keeping (70 KB .. 1.4 MB)
+	// is printed, and directly after it, on the same goroutine and without a
+	// collection in between, small statements are printed and read back.
+	{
+		local := map[string]int64{}
+		small := []string{"SELECT a FROM m", "SELECT mean(v) FROM cpu WHERE host = 'a' GROUP BY time(1m)", "SHOW MEASUREMENTS ON db", "SELECT a + b FROM (SELECT a, b FROM m)", "DROP SERIES FROM m WHERE h = 'x'"}
+		for _, n := range []int{9000, 30000, 150000} {
+			var fs []string
+			for i := 0; i < n; i++ {
+				fs = append(fs, "f"+strconv.Itoa(i))
+			}
+			big, err := influxql.ParseStatement("SELECT " + strings.Join(fs, ", ") + " FROM m WHERE " + strings.Join(fs[:n/10], " + ") + " > 1")
+			if err != nil {
+				r.Violation("print-parse-roundtrip", map[string]interface{}{"sub": "after-large", "input": "SELECT f0, ... f" + strconv.Itoa(n), "why": err.Error()})
+				continue
+			}
+			var sts []influxql.Statement
+			for _, t := range small {
+				st, _ := influxql.ParseStatement(t)
+				sts = append(sts, st)
+			}
+			old := debug.SetGCPercent(-1)
+			bigText := big.String()
+			var printed []string
+			for _, st := range sts {
+				printed = append(printed, st.String())
+			}
+			debug.SetGCPercent(old)
+			r.Eval(1)
+			for i, st := range sts {
+				back, err := influxql.ParseStatement(printed[i])
+				if err != nil || dumpOf(back) != dumpOf(st) {
+					r.Violation("print-parse-roundtrip", map[string]interface{}{"sub": "after-large", "input": small[i], "why": fmt.Sprintf("printed directly after a statement of %d bytes, the statement prints as %q (err %v)", len(bigText), trunc(printed[i], 200), err)})
+					break
+				}
+				local["printed-after-a-large-statement"]++
 			}
 		}
 		r.MergeCounts(local)
